@@ -567,6 +567,42 @@ func sameResult(a, b interface{}) bool {
 	return reflect.DeepEqual(a, b)
 }
 
+// c20scribble overwrites every vertex of g in place (through the slices g holds).
+func c20scribble(g orb.Geometry) {
+	junk := orb.Point{-9.5e9, 7.25e-9}
+	pts := func(ps []orb.Point) {
+		for i := range ps {
+			ps[i] = junk
+		}
+	}
+	switch x := g.(type) {
+	case orb.MultiPoint:
+		pts(x)
+	case orb.LineString:
+		pts(x)
+	case orb.Ring:
+		pts(x)
+	case orb.MultiLineString:
+		for _, l := range x {
+			pts(l)
+		}
+	case orb.Polygon:
+		for _, l := range x {
+			pts(l)
+		}
+	case orb.MultiPolygon:
+		for _, p := range x {
+			for _, l := range p {
+				pts(l)
+			}
+		}
+	case orb.Collection:
+		for _, m := range x {
+			c20scribble(m)
+		}
+	}
+}
+
 // lengthRef is what "length" means kind by kind: the sum of the segment distances of every line and ring;
 // a bound is measured as its ring, points have none.
 func lengthRef(g orb.Geometry, df orb.DistanceFunc) float64 {
@@ -661,6 +697,17 @@ func init() {
 		}
 		if e.readOnly && (!refmodel.EqualBits(arg, snap) || isNilSlice(arg) != isNilSlice(snap)) {
 			c.Fail("", "a read-only function changed its argument", map[string]interface{}{"case": d(), "after": fmt.Sprintf("%#v", arg)})
+		}
+		if e.name == "orb.Clone" {
+			// the clone is a value of its own: once it has been judged, overwriting every vertex of it must leave the argument as it was
+			defer func() {
+				if rg, ok := res.(orb.Geometry); ok && rg != nil {
+					c20scribble(rg)
+					if !refmodel.EqualBits(arg, snap) {
+						c.Fail("", "writing to the vertices of a clone changed the value it was cloned from", map[string]interface{}{"case": d(), "after": fmt.Sprintf("%#v", arg)})
+					}
+				}
+			}()
 		}
 		if e.typed != nil {
 			var want interface{}
